@@ -233,7 +233,7 @@ def main(tier, seed, replay=None):
     common.ensure_worker("chk")
     run = common.Run(PROP, tier, seed)
     cases = [("table", n, s, w) for n, s, w in table()]
-    cases += [("ni", seed, i) for i in range(250 if tier == "quick" else 20000)]
+    cases += [("ni", seed, i) for i in range(800 if tier == "quick" else 20000)]
     for r in common.run_sharded(run_case, cases):
         if r.get("verdict") is None and "harness_error" not in r:
             run.merge_counters(r.get("cov"))
